@@ -569,7 +569,11 @@ func C04(tier string) int {
 	widgets := []string{"w1", "w1x"}
 	run := func(sc *fkScenario) {
 		n := len(sc.Ops())
-		runE1(rep, sc, explore.Config{Programs: explore.SingleOps(n)})
+		ops := sc.Ops()
+		// refused deletes also through Db.Batch (which re-runs a failed function on its own)
+		runE1(rep, sc, explore.Config{Programs: explore.SingleOps(n), BatchRejected: func(p []int) bool {
+			return len(p) == 1 && strings.HasPrefix(ops[p[0]].Name, "delete")
+		}})
 	}
 	wirings := []fkWiring{fkIdxNullable, fkIdxNonNull, fkIdxCascade, fkcNoneNullable, fkcNoneNonNull, fkcCascadeNullable, fkcCascadeNonNull}
 	for _, w := range wirings {
